@@ -7,6 +7,7 @@ import (
 	"fmt"
 	"io"
 	"math/rand/v2"
+	"strings"
 
 	"seehuhn.de/go/postscript"
 	"seehuhn.de/go/postscript/afm"
@@ -128,8 +129,17 @@ func genCorpusItem(c *rt.C, env *psEnv, kind string, invalid bool) corpusItem {
 				data[j] = byte(rng.IntN(256))
 			}
 			fmt.Fprintf(&buf, "/RDc { string currentfile exch readstring pop } def /cleardata %d RDc ", k)
+			if k > 0 && rng.IntN(2) == 0 {
+				data[k-1] = "\n\r"[rng.IntN(2)] // the data ends with a line end ...
+			}
 			buf.Write(data)
-			buf.WriteString(" def\n")
+			if rng.IntN(2) == 0 {
+				// ... and a structured comment follows it immediately: whether it starts
+				// in column 0 depends on the data bytes, not on how they were delivered
+				buf.WriteString("%%EndData: yes\n def\n")
+			} else {
+				buf.WriteString(" def\n")
+			}
 		}
 		if rng.IntN(2) == 0 {
 			P, _ := genEexecPlain(c, env, full)
@@ -139,6 +149,10 @@ func genCorpusItem(c *rt.C, env *psEnv, kind string, invalid bool) corpusItem {
 			it.marks = append(it.marks, buf.Len())
 			buf.Write(lay.text)
 			buf.WriteString("\n/after 2 def\n")
+		}
+		if rng.IntN(4) == 0 {
+			// the program closes its own file in clear text; what follows is never read as program
+			buf.WriteString("mark currentfile closefile\n" + strings.Repeat("00000000000000000000000000000000\n", 1+rng.IntN(20)) + "cleartomark ) } > never executed\n")
 		}
 		it.data = buf.Bytes()
 		it.desc = "program"
